@@ -1,4 +1,4 @@
-REPO_FIX_COMMITS = ['2d7a94d', '41c6b34', '15c99e7', '0752c0c', '7f84765', 'af57352', 'e33a24d', '5bdc6b3', '08843a4', '3e03bb0', 'd823a64', '3ba8645', '9eda77c', 'f97803c', '7e803d3', '0853a40']
+REPO_FIX_COMMITS = ['2d7a94d', '41c6b34', '15c99e7', '0752c0c', '7f84765', 'af57352', 'e33a24d', '5bdc6b3', '08843a4', '3e03bb0', 'd823a64', '3ba8645', '9eda77c', 'f97803c', '7e803d3', '0853a40', '76123e6']
 NOT_APPLICABLE = {}
 CHECKS = {
  'C18': dict(
@@ -107,4 +107,15 @@ CHECKS = {
   note='Sine-term sign not fixed by the property (compared up to sign); fit tolerance scales with the condition number '
        'of the sampled basis.',
   design='3/C10'),
+ 'C17': dict(
+  technique='Hypothesis-generated index pairs/angles, element parameters, and lenses x ray bundles x polarization states, '
+            'checked against textbook Fresnel formulas, energy conservation, projector/unitary algebra and the '
+            'orthogonal-pair identity',
+  level='Energy conservation and Fresnel magnitudes for generated (n1,n2,theta) below the critical angle incl. Brewster '
+        'and normal incidence; transversality / isometry / unit intensity of the polarization ray trace on generated '
+        '(tilted, mirrored, aspheric) lenses; unpolarized = mean of an orthogonal pair with Fresnel coatings everywhere; '
+        'polarizers enumerated; retarders and diattenuators at generated angles. Counter-example search.',
+  note='Amplitude signs are convention dependent (magnitudes compared); diattenuator carries known finding '
+       'C17-diattenuator-offdiagonal; trace clauses at 1e-7.',
+  design='3/C17'),
 }
